@@ -69,6 +69,19 @@ Definition check_path (rs : list rect) (src dst : zp) (pen : Z) (p : list zp) : 
   | _ => None
   end.
 
+(* direction restrictions at the endpoints (pins): masks over seg_dir codes, bit d set = direction d allowed;
+   sd restricts the first segment, ad the last (arrival) segment; 15 = unrestricted *)
+Fixpoint last_dir (p : list zp) : Z :=
+  match p with
+  | [a; b] => seg_dir a b
+  | _ :: t => last_dir t
+  | [] => 0
+  end.
+Definition first_dir (p : list zp) : Z := match p with a :: b :: _ => seg_dir a b | _ => 0 end.
+Definition dir_allowed (mask d : Z) : bool := Z.testbit mask d.
+Definition check_path_dirs (rs : list rect) (src dst : zp) (pen sd ad : Z) (p : list zp) : option Z :=
+  if dir_allowed sd (first_dir p) && dir_allowed ad (last_dir p) then check_path rs src dst pen p else None.
+
 (* declarative side: points of an axis-parallel segment, open interior of a rectangle (rational points) *)
 Local Open Scope Q_scope.
 Definition on_seg (a b : zp) (q : Q * Q) : Prop :=
@@ -207,13 +220,14 @@ Definition vturn (a : val) (pen : Z) (pt : zp) : val :=
    p1/p2 the two perpendicular states, mk builds the point from the coordinate along the line. *)
 Section Sweep.
   Variables (get : cell -> val) (set : cell -> val -> cell) (p1 p2 : cell -> val) (mk : Z -> zp) (pen : Z)
-            (blocked : Z -> Z -> bool).
+            (blocked : Z -> Z -> bool) (dst : zp).
   Fixpoint sweep (carry : val) (prev : Z) (first : bool) (line : list (Z * cell)) : list (Z * cell) :=
     match line with
     | [] => []
     | (x, c) :: t =>
         let incoming := if first then None else if blocked prev x then None else vadd carry (Z.abs (x - prev)) in
-        let turnin := vturn (vmin (p1 c) (p2 c)) pen (mk x) in
+        (* no turn at the destination itself: a state (dst, d) always means "arrived travelling d" *)
+        let turnin := if zp_eqb (mk x) dst then None else vturn (vmin (p1 c) (p2 c)) pen (mk x) in
         let v := vmin (vmin (get c) incoming) turnin in
         (x, set c v) :: sweep v x false t
     end.
@@ -227,11 +241,11 @@ Definition setW c v := mkcell (cN c) (cE c) (cS c) v.
 (* grid = list of rows (y, list of (x, cell)) *)
 Definition grid := list (Z * list (Z * cell)).
 
-Definition sweep_rows (rs : list rect) (pen : Z) (g : grid) : grid :=
+Definition sweep_rows (rs : list rect) (pen : Z) (dst : zp) (g : grid) : grid :=
   map (fun row => let '(y, l) := row in
     let blk := fun a b => hblocked rs (Z.min a b) (Z.max a b) y in
-    let l1 := sweep cE setE cN cS (fun x => (x, y)) pen blk None 0 true l in
-    let l2 := rev (sweep cW setW cN cS (fun x => (x, y)) pen blk None 0 true (rev l1)) in
+    let l1 := sweep cE setE cN cS (fun x => (x, y)) pen blk dst None 0 true l in
+    let l2 := rev (sweep cW setW cN cS (fun x => (x, y)) pen blk dst None 0 true (rev l1)) in
     (y, l2)) g.
 
 Fixpoint transpose_aux (xs : list Z) (g : grid) : grid :=
@@ -248,16 +262,16 @@ Definition transpose (g : grid) : grid :=
   | (_, l) :: _ => transpose_aux (map fst l) g
   end.
 
-Definition sweep_cols (rs : list rect) (pen : Z) (g : grid) : grid :=
+Definition sweep_cols (rs : list rect) (pen : Z) (dst : zp) (g : grid) : grid :=
   (* g is in column form: (x, list of (y, cell)) *)
   map (fun col => let '(x, l) := col in
     let blk := fun a b => vblocked rs (Z.min a b) (Z.max a b) x in
-    let l1 := sweep cS setS cE cW (fun y => (x, y)) pen blk None 0 true l in
-    let l2 := rev (sweep cN setN cE cW (fun y => (x, y)) pen blk None 0 true (rev l1)) in
+    let l1 := sweep cS setS cE cW (fun y => (x, y)) pen blk dst None 0 true l in
+    let l2 := rev (sweep cN setN cE cW (fun y => (x, y)) pen blk dst None 0 true (rev l1)) in
     (x, l2)) g.
 
-Definition round (rs : list rect) (pen : Z) (g : grid) : grid :=
-  transpose (sweep_cols rs pen (transpose (sweep_rows rs pen g))).
+Definition round (rs : list rect) (pen : Z) (dst : zp) (g : grid) : grid :=
+  transpose (sweep_cols rs pen dst (transpose (sweep_rows rs pen dst g))).
 
 Definition signature (g : grid) : list Z :=
   flat_map (fun row => flat_map (fun xc => let c := snd xc in [vcost (cN c); vcost (cE c); vcost (cS c); vcost (cW c)]) (snd row)) g.
@@ -268,17 +282,17 @@ Fixpoint zlist_eqb (a b : list Z) : bool :=
   | _, _ => false
   end.
 
-Fixpoint iterate (fuel : nat) (rs : list rect) (pen : Z) (g : grid) : option grid :=
+Fixpoint iterate (fuel : nat) (rs : list rect) (pen : Z) (dst : zp) (g : grid) : option grid :=
   match fuel with
   | O => None
-  | S n => let g' := round rs pen g in
-           if zlist_eqb (signature g) (signature g') then Some g' else iterate n rs pen g'
+  | S n => let g' := round rs pen dst g in
+           if zlist_eqb (signature g) (signature g') then Some g' else iterate n rs pen dst g'
   end.
 
-Definition init_grid (xs ys : list Z) (src : zp) : grid :=
+Definition init_grid (xs ys : list Z) (src : zp) (sd : Z) : grid :=
   map (fun y => (y, map (fun x =>
     (x, if Z.eqb x (fst src) && Z.eqb y (snd src)
-        then let v := Some (0, [src]) in mkcell v v v v
+        then let v := fun d => if dir_allowed sd d then Some (0, [src]) else None in mkcell (v 0) (v 1) (v 2) (v 3)
         else mkcell None None None None)) xs)) ys.
 
 Definition lookup (g : grid) (p : zp) : option cell :=
@@ -293,43 +307,68 @@ Inductive oracle_result :=
 | OR_out_of_fuel
 | OR_bad_path (c : Z) (p : list zp).
 
-Definition search (rs : list rect) (src dst : zp) (pen : Z) (fuel : nat) : option (option (Z * list zp)) :=
+Definition search (rs : list rect) (src dst : zp) (pen sd ad : Z) (fuel : nat) : option (option (Z * list zp)) :=
   let xs := hanan_xs rs src dst in
   let ys := hanan_ys rs src dst in
-  match iterate fuel rs pen (init_grid xs ys src) with
+  match iterate fuel rs pen dst (init_grid xs ys src sd) with
   | None => None
   | Some g =>
       match lookup g dst with
       | None => Some None
-      | Some c => match vmin (vmin (cN c) (cE c)) (vmin (cS c) (cW c)) with
+      | Some c => let f := fun d (v : val) => if dir_allowed ad d then v else None in
+                  match vmin (vmin (f 0 (cN c)) (f 1 (cE c))) (vmin (f 2 (cS c)) (f 3 (cW c))) with
                   | None => Some None
                   | Some (k, p) => Some (Some (k, rev (dst :: p)))
                   end
       end
   end.
 
-Definition oracle (rs : list rect) (src dst : zp) (pen : Z) (fuel : nat) : oracle_result :=
-  match search rs src dst pen fuel with
+Definition oracle_dirs (rs : list rect) (src dst : zp) (pen sd ad : Z) (fuel : nat) : oracle_result :=
+  match search rs src dst pen sd ad fuel with
   | None => OR_out_of_fuel
   | Some None => OR_unreachable
   | Some (Some (k, p)) =>
-      match check_path rs src dst pen p with
+      match check_path_dirs rs src dst pen sd ad p with
       | Some k' => if Z.eqb k k' then OR_cost k p else OR_bad_path k p
       | None => OR_bad_path k p
       end
   end.
 
-(* whatever the search does, a returned cost is the cost of a real orthogonal obstacle-avoiding path *)
+Definition oracle (rs : list rect) (src dst : zp) (pen : Z) (fuel : nat) : oracle_result :=
+  oracle_dirs rs src dst pen 15 15 fuel.
+
+Lemma check_path_dirs_sound rs src dst pen sd ad p c :
+  check_path_dirs rs src dst pen sd ad p = Some c ->
+  valid_orth_route rs src dst p /\ c = route_cost pen p /\
+  dir_allowed sd (first_dir p) = true /\ dir_allowed ad (last_dir p) = true.
+Proof.
+  unfold check_path_dirs.
+  destruct (dir_allowed sd (first_dir p)) eqn:E1; [|discriminate].
+  destruct (dir_allowed ad (last_dir p)) eqn:E2; [|discriminate]. cbn [andb].
+  intro H. apply check_path_sound in H. tauto.
+Qed.
+
+(* whatever the search does, a returned cost is the cost of a real orthogonal obstacle-avoiding path that
+   respects the direction restrictions *)
+Theorem oracle_dirs_sound rs src dst pen sd ad fuel c p :
+  oracle_dirs rs src dst pen sd ad fuel = OR_cost c p ->
+  valid_orth_route rs src dst p /\ c = route_cost pen p /\
+  dir_allowed sd (first_dir p) = true /\ dir_allowed ad (last_dir p) = true.
+Proof.
+  unfold oracle_dirs. destruct (search rs src dst pen sd ad fuel) as [[[k q]|]|]; try discriminate.
+  destruct (check_path_dirs rs src dst pen sd ad q) as [k'|] eqn:E; try discriminate.
+  destruct (Z.eqb k k') eqn:Ek; try discriminate.
+  intro H. inversion H; subst. apply Z.eqb_eq in Ek. subst k'.
+  apply check_path_dirs_sound in E. exact E.
+Qed.
 Theorem oracle_sound rs src dst pen fuel c p :
   oracle rs src dst pen fuel = OR_cost c p ->
   valid_orth_route rs src dst p /\ c = route_cost pen p.
-Proof.
-  unfold oracle. destruct (search rs src dst pen fuel) as [[[k q]|]|]; try discriminate.
-  destruct (check_path rs src dst pen q) as [k'|] eqn:E; try discriminate.
-  destruct (Z.eqb k k') eqn:Ek; try discriminate.
-  intro H. inversion H; subst. apply Z.eqb_eq in Ek. subst k'.
-  apply check_path_sound in E. exact E.
-Qed.
+Proof. intro H. apply oracle_dirs_sound in H. tauto. Qed.
+
+Example oracle_dirs_example :
+  exists p, oracle_dirs [mkrect 2 0 4 6] (0, 3) (6, 3) 10 1 4 20 = OR_cost 32 p.
+Proof. vm_compute. eexists. reflexivity. Qed.
 
 (* non-vacuity: one rectangle between the endpoints; the oracle finds the 2-bend detour and it checks *)
 Example oracle_example :
